@@ -1241,6 +1241,33 @@ impl FatVolume {
         Ok(())
     }
 
+    /// Marks every cluster of the chain starting at the given cluster as free
+    pub(crate) fn release_cluster_chain<D>(
+        &mut self,
+        block_cache: &mut BlockCache<D>,
+        first: ClusterId,
+    ) -> Result<(), Error<D::Error>>
+    where
+        D: BlockDevice,
+    {
+        if first.0 < RESERVED_ENTRIES {
+            // nothing was ever allocated
+            return Ok(());
+        }
+        // everything after the first cluster...
+        self.truncate_cluster_chain(block_cache, first)?;
+        // ...and then the first cluster itself
+        self.update_fat(block_cache, first, ClusterId::EMPTY)?;
+        self.free_clusters_count = self
+            .free_clusters_count
+            .and_then(|number_free_cluster| number_free_cluster.checked_add(1));
+        match self.next_free_cluster {
+            Some(next_free_cluster) if next_free_cluster.0 <= first.0 => {}
+            _ => self.next_free_cluster = Some(first),
+        }
+        Ok(())
+    }
+
     /// Writes a Directory Entry to the disk
     pub(crate) fn write_entry_to_disk<D>(
         &self,
